@@ -14,7 +14,7 @@ CFG = dict(
                'on trees built by the real IRBuilder from generated rule text). Trusted: Coq kernel; the hand-written models Model/IR.v, Model/Opt.v (validated per run, not derived); '
                'Differential Dataflow is compared with, never reasoned about. Avg / TopK aggregates, Div, builtin function calls and vector literals are outside the IR model.',
     technique='Coq proof over an executable model of the optimizer + per-run translation validation: structural model-vs-real optimizer output, bag denotation vs real execution, property oracle on real outputs',
-    bin='c05', n_quick=170, n_thorough=6000,
+    bin='c05', n_quick=170, n_thorough=3000,
     corr_name='Model/Opt.v optimize vs Optimizer::optimize (tree equality) and Model/IR.v den vs CodeGenerator::execute',
     rule='corpus (pushdown to the right join input x2, always-false branch in front of a Union under a join x2, union of two joins under the join planner) then per seed: 3/4 random well-typed IR trees '
          '(depth <= 5, all 12 node kinds, every Predicate constructor incl. And/Or/ColumnCompareArith/ArithCompareConst with out-of-range and ill-typed columns, Compute expressions, '
